@@ -50,7 +50,7 @@ RHome(u) == Pk!PlacePath(u.rplace) \o <<"refmod">>
 (* signature needs an import; a module uses a class of a module whose name extends its own (model / model_utils); a module uses a class  *)
 (* of another library while the package has a class of the same name (decimal.Decimal / pkg.bigdecimal.Decimal); a nested class used     *)
 (* from another module.  JudgeRun judges them like every other file: referenced names are declared or imported, imports resolve.         *)
-MiscShapes == {"rootrx", "prefixsib", "samesuffix", "nested", "exccls", "rawbuiltin"}      \* ... an exception class of the package; bytes / object / complex
+MiscShapes == {"rootrx", "prefixsib", "samesuffix", "nested", "exccls", "rawbuiltin", "newtype", "condcls", "privcls"}      \* ... an exception class of the package; bytes / object / complex
 VARIABLES sc, files, pc
 vars == <<sc, files, pc>>
 Init == sc \in { u \in Universe(Tier) : Legal(u) } /\ files = {} /\ pc = "emit-target"
